@@ -1,11 +1,31 @@
-//! C01: not built yet
+//! C01: exact, ordered delivery to matching subscriptions (S4)
+use super::s4common::{self, Plan};
 use super::{Meta, Prop};
 use crate::common::{Ctx, Stats};
+use crate::sub::s4drive::{base_profile, Stepping};
 
-fn run(_ctx: &Ctx) -> Stats {
-    let mut s = Stats::default();
-    s.inconclusive.push("check not built yet".into());
-    s
+pub fn plan() -> Plan {
+    let mut mixed = base_profile("c01-mixed");
+    mixed.stepping = Stepping::Mixed;
+    let mut turns = base_profile("c01-turns");
+    turns.stepping = Stepping::Turns;
+    let mut single = base_profile("c01-single");
+    single.stepping = Stepping::Single;
+    single.burst_pm = 150;
+    Plan {
+        profiles: vec![mixed, turns, single],
+        directed: vec![],
+        quick_histories: 400,
+        thorough_histories: 60_000,
+    }
+}
+
+fn run(ctx: &Ctx) -> Stats {
+    s4common::run(ctx, &plan())
+}
+
+fn replay(ctx: &Ctx, doc: &serde_json::Value) -> Stats {
+    s4common::replay(ctx, &plan(), doc)
 }
 
 pub fn prop() -> Prop {
@@ -13,11 +33,11 @@ pub fn prop() -> Prop {
         id: "C01",
         meta: Meta {
             level: "exploration",
-            rule: "not built",
-            assumptions: &[],
-            floors: &[],
+            rule: "seeded random histories of 2-5 simulated clients (connect/subscribe/unsubscribe/publish QoS0-2/ack/disconnect, stalls, bursts) against the real router stepped by the harness; a case is counted as distinct and non-trivial when its sequence of operation kinds is new and it reached at least one named corner state",
+            assumptions: &["router stepped on one thread through verif hooks; link actors use the real LinkTx/LinkRx", "default segment sizes: backlog stays within retention"],
+            floors: &[("quiescent-point", 20), ("forward", 200)],
         },
         run,
-        replay: None,
+        replay: Some(replay),
     }
 }
